@@ -115,7 +115,6 @@ class C24(Spec):
                 cfg['jac'] = rng.choice([None, None, 'csc', 'dense'])
             if not cpl and cfg['jac'] is None and rng.random() < 0.35:
                 cfg['approx'] = True          # first-level groups are semi-total finite-difference groups
-                cfg['mf'] = False             # (approx groups with matrix-free components: props/C01/repro_approx_observations.py)
             nd, nr = len(spec['desvars']), len(spec['responses'])
             history = []
             for _ in range(rng.randrange(1, 4)):
